@@ -450,6 +450,12 @@ func (e *oraEnv) runBlock(begin chain.M, pending []chain.M, w *chain.TraceWriter
 	e.last = bs
 	for i, ev := range pending {
 		r := res.Txs[i]
+		if r.Aborted {
+			// member of a multi-message transaction that failed as a whole (chain.BundlePct):
+			// whatever it did was rolled back; the specification knows no such event and
+			// treats it as a rejection without effect
+			ev["name"] = "TxFailed"
+		}
 		ev["ok"], ev["panic"] = r.OK, r.Panic
 		st := r.State.(chain.M)
 		switch chain.Str(ev, "name") {
@@ -793,6 +799,9 @@ func oraClock(fl *drv.Flags, w *chain.TraceWriter) error {
 		}
 		w.Write(oraEvent("BeginBlock", "", ""), res.BeginState)
 		for i, ev := range evs {
+			if res.Txs[i].Aborted {
+				ev["name"] = "TxFailed"
+			}
 			ev["ok"], ev["panic"] = res.Txs[i].OK, res.Txs[i].Panic
 			w.Write(ev, res.Txs[i].State)
 			e.last = res.Txs[i].State.(chain.M)
